@@ -147,6 +147,62 @@ func judgeDefaults(c *Ctx, k defaultsCase) {
 	}
 }
 
+// stepWalkOffsets: a walk over adjacent time steps around a base step - an ascending run, one step below the
+// start, the top of the run again, a descending run past the start, then jumps of up to +-70 steps (with +-1 and
+// +-31..33 over-represented). With one key and parameter set throughout, any memo of recent steps is driven through
+// filling, growing at either end, wrapping and eviction.
+func stepWalkOffsets(rng *gen.RNG, n int) []int64 {
+	var o []int64
+	up := 30 + rng.Intn(20)
+	for i := 0; i <= up; i++ {
+		o = append(o, int64(i))
+	}
+	o = append(o, -1, int64(up), int64(up-1), -2, int64(up))
+	for i := up; i >= -10-rng.Intn(30); i-- {
+		o = append(o, int64(i))
+	}
+	cur := int64(0)
+	for len(o) < n {
+		switch rng.Intn(6) {
+		case 0:
+			cur += 1
+		case 1:
+			cur -= 1
+		case 2:
+			cur += int64(31 + rng.Intn(3))
+		case 3:
+			cur -= int64(31 + rng.Intn(3))
+		default:
+			cur += int64(rng.Intn(141)) - 70
+		}
+		if cur < -200 || cur > 200 {
+			cur = 0
+		}
+		o = append(o, cur)
+	}
+	return o
+}
+
+func c02StepWalk(c *Ctx) {
+	rng := c.RNG.Fork(202)
+	for w := 0; w < c.N(12, 150); w++ {
+		p := gen.Pick(rng, []uint64{0, 1, 30, 30, 60, 3600})
+		pp := int64(p)
+		if pp == 0 {
+			pp = 30
+		}
+		base := (1000 + int64(rng.Intn(1<<30))) * pp
+		k0 := totpCase{KeyHex: hexs(rng.Bytes(20)), Period: p, Digits: uint8(6 + rng.Intn(5)), Algo: uint8(rng.Intn(3))}
+		k0.Secret = ref.Base32EncodeNoPad(unhex(k0.KeyHex))
+		for _, off := range stepWalkOffsets(rng, c.N(400, 1500)) {
+			k := k0
+			k.At = gen.InstantSpec{Unix: base + off*pp + int64(rng.Intn(int(pp))), Ns: int64(rng.Intn(1000000000)), Zone: 0}
+			judgeTOTP(c, k)
+			c.R.Count("adjacent_step_walk_calls", 1)
+		}
+	}
+}
+
 func init() {
 	register(&Prop{
 		ID: "C02",
@@ -226,6 +282,7 @@ func init() {
 				groups = append(groups, g)
 			}
 			parallelJudge(c, groups, judgeSameSecond)
+			c02StepWalk(c)
 			// step pairs on one goroutine with one secret and parameter set: instant A, then instant B in another
 			// step whose monotonic reading disagrees with its wall clock (equal to A's reading, or A's plus/minus a
 			// little, or far away) - the code must follow B's Unix second alone
